@@ -132,7 +132,7 @@ Definition hrel (al : list alloc) (ar : list arc) (mc : option cow) (sc : option
   | Some c, Some (d, o) =>
       len d <= ISZ /\ c_len c = len d /\
       match o with
-      | OB => c_cap c = 0 /\ c_ptr c = PStatic d
+      | OB => c_cap c = 0 /\ exists buf off, c_ptr c = PStatic buf off /\ slice buf off (len d) = Some d
       | OO false => c_cap c = 0 /\ c_ptr c = PDangling /\ d = []
       | OO true => c_cap c <> 0 /\ c_cap c <= ISZ /\
                    exists a, c_ptr c = PHeap a /\ nth_error al a = Some (mkalloc d (c_cap c) false)
@@ -215,7 +215,7 @@ Proof.
   destruct H as (_ & _ & H). destruct (c_ptr c) eqn:P; auto.
   destruct (Nat.eqb_spec a a0); auto. subst a0.
   destruct o as [|[|]|r].
-  - destruct H as (_ & H); congruence.
+  - destruct H as (_ & b' & o' & H & _); congruence.
   - destruct H as (_ & _ & a' & E1 & E2). inversion E1; subst.
     assert (a' < length al)%nat by (apply nth_error_Some; congruence). lia.
   - destruct H as (_ & H & _); congruence.
@@ -236,7 +236,7 @@ Lemma read_rel m s i c d o : Rst m s -> nth i (store m) None = Some c -> nth i (
 Proof.
   intros HR Ec Es. pose proof (R_h _ _ _ _ HR i) as H. rewrite Ec, Es in H. destruct H as (Hb & Hl & H).
   unfold read. destruct o as [|[|]|r].
-  - destruct H as (_ & P). rewrite P, Hl, N.leb_refl, take_all. reflexivity.
+  - destruct H as (_ & b' & o' & P & Hs). rewrite P, Hl, Hs. reflexivity.
   - destruct H as (_ & _ & a & P & E). rewrite P, E. simpl.
     rewrite Hl, N.leb_refl, take_all. reflexivity.
   - destruct H as (_ & P & E). subst d. rewrite P, Hl. reflexivity.
